@@ -67,8 +67,9 @@ struct Outcome { ops: Vec<(String, String)>, directives: Vec<String>, class: Str
 fn justice_scenario(seed: u64, thorough: bool) -> Result<Outcome, String> {
 	let mut rng = Rng::new(seed);
 	let mut out = Outcome { ops: vec![], directives: vec![], class: String::new(), oracle: vec![] };
-	let cfg = test_legacy_channel_config();
-	let anchors = false;
+	let anchors = rng.chance(1, 3);
+	let cfg = if anchors { test_default_channel_config() } else { test_legacy_channel_config() };
+	let reload = rng.below(4);   // 1: monitor + manager serialised and reloaded before the confirmation, 2: after it
 	let mut net = Net::new(2, vec![Some(cfg.clone()), Some(cfg)]);
 	let c = net.open(0, 1, 1_000_000, 400_000_000);
 	let chan_id = net.chans[c].2;
@@ -134,8 +135,10 @@ fn justice_scenario(seed: u64, thorough: bool) -> Result<Outcome, String> {
 	if !revoked { return Err("captured commitment was not revoked by the later updates".into()); }
 	// the retained data, straight from the model after all secrets
 	out.ops.push((format!("data {}", me.n), list_or_dash(me.htlcs.iter().map(htlc_tok).collect(), ",")));
+	drop(mon);   // the LockedChannelMonitor holds the ChainMonitor's read lock
 	// ---- confirm the revoked commitment on the victim ---------------------------------------------------
 	if rng.chance(1, 3) { *net.nodes[victim].fee_estimator.sat_per_kw.lock().unwrap() = 253 + rng.below(3000) as u32; }
+	if reload == 1 { net.restart(victim).map_err(|e| format!("reload failed: {}", e))?; }
 	let node = &net.nodes[victim];
 	node.tx_broadcaster.txn_broadcasted.lock().unwrap().clear();
 	let mut prevouts: HashMap<OutPoint, TxOut> = HashMap::new();
@@ -143,7 +146,9 @@ fn justice_scenario(seed: u64, thorough: bool) -> Result<Outcome, String> {
 	mine_transaction(node, &revoked_tx);
 	let close_height = node.best_block_info().1;
 	let mut all_bcast: Vec<Transaction> = vec![];
-	let mut take = |node: &Node, all: &mut Vec<Transaction>| -> Vec<Transaction> { let v: Vec<Transaction> = node.tx_broadcaster.txn_broadcasted.lock().unwrap().drain(..).collect(); all.extend(v.iter().cloned()); v };
+	let mut take = |node: &Node, all: &mut Vec<Transaction>| -> Vec<Transaction> { let v: Vec<Transaction> = node.tx_broadcaster.txn_broadcasted.lock().unwrap().drain(..).collect();
+		if std::env::var("C06_DEBUG").is_ok() { for t in &v { eprintln!("h={} bcast {} in={:?} out={:?}", node.best_block_info().1, t.compute_txid(), t.input.iter().map(|i| format!("{}:{}", &i.previous_output.txid.to_string()[..6], i.previous_output.vout)).collect::<Vec<_>>(), t.output.iter().map(|o| o.value.to_sat()).collect::<Vec<_>>()); } }
+		all.extend(v.iter().cloned()); v };
 	let first = take(node, &mut all_bcast);
 	let tag = |op: &OutPoint, second: &Vec<Transaction>| -> Option<(u8, u32, u32)> {
 		if op.txid == revoked_txid { return Some((0, 0, op.vout)); }
@@ -155,6 +160,8 @@ fn justice_scenario(seed: u64, thorough: bool) -> Result<Outcome, String> {
 	let mut set_a = BTreeSet::new();
 	for t in &first { for i in &t.input { match tag(&i.previous_output, &none) { Some(x) => { set_a.insert(x); }, None => out.oracle.push(format!("victim broadcast {} spends an unrelated outpoint {}", t.compute_txid(), i.previous_output)) } } }
 	out.ops.push((format!("confirm {} {} -", me.n, outs_tok), show(&set_a)));
+	if reload == 2 { net.restart(victim).map_err(|e| format!("reload failed: {}", e))?; }
+	let node = &net.nodes[victim];
 	// ---- a random subset of the cheater's second-stage transactions confirms ------------------------------
 	let mut second: Vec<Transaction> = vec![];
 	for t in captured.iter().skip(1) { if rng.chance(1, 2) { second.push(t.clone()); } }
@@ -165,13 +172,19 @@ fn justice_scenario(seed: u64, thorough: bool) -> Result<Outcome, String> {
 			for (i, o) in t.output.iter().enumerate() { prevouts.insert(OutPoint { txid: id, vout: i as u32 }, o.clone()); }
 		}
 		let refs: Vec<&Transaction> = second.iter().collect();
+		if std::env::var("C06_DEBUG").is_ok() { for t in &second { eprintln!("second {} in={:?} out={:?} locktime {}", t.compute_txid(), t.input.iter().map(|i| i.previous_output.vout).collect::<Vec<_>>(), t.output.iter().map(|o| o.value.to_sat()).collect::<Vec<_>>(), t.lock_time); } }
 		mine_transactions(node, &refs);
-		take(node, &mut all_bcast);
-		// every pending package is re-issued within LOW_FREQUENCY_BUMP_INTERVAL blocks: what is STILL claimed
+		let mut after = take(node, &mut all_bcast);
+		// every pending package that can still be bumped is re-issued within LOW_FREQUENCY_BUMP_INTERVAL blocks
 		connect_blocks(node, 15);
-		let again = take(node, &mut all_bcast);
-		set_b = BTreeSet::new();
-		for t in &again { for i in &t.input { match tag(&i.previous_output, &second) { Some(x) => { set_b.insert(x); }, None => out.oracle.push(format!("victim broadcast {} spends an unrelated outpoint {}", t.compute_txid(), i.previous_output)) } } }
+		after.extend(take(node, &mut all_bcast));
+		// what the victim claims now: everything it ever tried to claim that the cheater's confirmed second-stage
+		// transactions have not spent (a chain fact, not model logic), plus whatever it claims on top of those
+		let gone: BTreeSet<OutPoint> = second.iter().flat_map(|t| t.input.iter().map(|i| i.previous_output)).collect();
+		set_b = set_a.iter().filter(|x| !gone.contains(&OutPoint { txid: revoked_txid, vout: x.2 })).cloned().collect();
+		for t in &after { for i in &t.input {
+			if gone.contains(&i.previous_output) { out.oracle.push(format!("victim re-claims {} after the cheater's second-stage spend of it was confirmed", i.previous_output)); continue; }
+			match tag(&i.previous_output, &second) { Some(x) => { set_b.insert(x); }, None => out.oracle.push(format!("victim broadcast {} spends an unrelated outpoint {}", t.compute_txid(), i.previous_output)) } } }
 		let sec_tok = second.iter().map(|t| t.input.iter().filter(|i| i.previous_output.txid == revoked_txid).map(|i| i.previous_output.vout.to_string()).collect::<Vec<_>>().join("+")).collect::<Vec<_>>().join(",");
 		out.ops.push((format!("confirm {} {} {}", me.n, outs_tok, sec_tok), show(&set_b)));
 	} else if rng.chance(1, 2) {
@@ -225,10 +238,11 @@ fn justice_scenario(seed: u64, thorough: bool) -> Result<Outcome, String> {
 	if to_remote_swept != my_to_remote { out.oracle.push(format!("victim's own to_remote {} not reported spendable (got {})", my_to_remote, to_remote_swept)); }
 	let mon = node.chain_monitor.chain_monitor.get_monitor(chan_id).map_err(|_| "no victim monitor")?;
 	let bals = mon.get_claimable_balances();
+	drop(mon);
 	let left: Vec<&Balance> = bals.iter().filter(|b| !matches!(b, Balance::MaybePreimageClaimableHTLC { .. })).collect();
 	if !left.is_empty() { out.oracle.push(format!("claimable balances do not drain after burial: {:?}", left)); }
 	let n_htlc = me.outs.iter().filter(|o| o.1 == 'H').count();
-	out.class = format!("justice:htlcs{}:second{}:toLocal{}", n_htlc.min(4), second.len().min(3), me.outs.iter().any(|o| o.1 == 'L') as u8);
+	out.class = format!("justice:htlcs{}:second{}:toLocal{}:anchors{}:reload{}", n_htlc.min(4), second.len().min(3), me.outs.iter().any(|o| o.1 == 'L') as u8, anchors as u8, if reload < 3 { reload } else { 0 });
 	let _ = n_updates;
 	let _ = net.nodes[victim].node.get_and_clear_pending_events();
 	let _ = net.nodes[victim].node.get_and_clear_pending_msg_events();
@@ -244,7 +258,7 @@ fn main() {
 		"c06bump" => bump::run_bump(&mut rec, &mut rng, args.thorough, args.scale),
 		"c06justice" => {
 			silence_stdout();
-			let n = if args.thorough { 300 } else { 24 } * args.scale;
+			let n = if args.thorough { 1500 } else { 120 } * args.scale;
 			for k in 0..n {
 				let s = rng.next();
 				match guarded(AssertUnwindSafe(|| justice_scenario(s, args.thorough))) {
